@@ -34,8 +34,8 @@ from bitarray import bitarray, frozenbitarray
 from common import BIN, bits_str, hex_str, impl_error
 
 PROP = "C10"
-MODULES = ["C10"]
-GEN = ["Trellis"]
+MODULES = ["C10", "C10t"]
+GEN = ["Trellis", "TranslTrellis"]
 MATCHERS = {}
 
 # captured packets of okdmr/tests/dmrlib/etsi/fec/test_trellis.py: decoded octets
@@ -2089,6 +2089,87 @@ def transformed_streams(ref: Ref, ch, rng):
 
 
 # ---- run -----------------------------------------------------------------------------------------
+def run_transl(ctx):
+    """Differential validation of the source translator (tools/py2lean.py + tools/py2lean_arr.py) and its preludes (Model/Py.lean,
+    Model/PyArr.lean, and the operations of Model/PyBits.lean it uses), trusted base of Props/C10t: the fourteen definitions
+    TRANSLATED from the source of trellis.py (`Gen/TranslTrellis.lean`, driver operations `t.tr.*`; decode / encode monomorphised
+    for as_bytes and bitarray / bytes) against the real functions: bit strings of every length class (0..200), valid / corrupted
+    code words, arrays of valid and invalid dibits / points / tribits of lengths 0..100 (KeyError, IndexError, AssertionError
+    paths), valid stage chains.  A difference is a translator or prelude bug, never a finding about /repo."""
+    if ctx.search_only or not ctx.driver_ok:
+        return
+    from array import array as _array
+    from bitarray import bitarray as _ba
+    t = T()
+    rng = ctx.rng
+
+    def sb(b):
+        return b.to01() if len(b) else "-"
+
+    def si(a):
+        return ",".join(str(x) for x in a) if len(a) else "-"
+
+    def res(fn, *a):
+        try:
+            r = fn(*a)
+        except Exception as e:  # noqa
+            return "ERR " + type(e).__name__
+        if isinstance(r, _ba):
+            return sb(r)
+        if isinstance(r, (bytes, bytearray)):
+            return r.hex() if r else "-"
+        return si(r)
+
+    def rbits(n):
+        return _ba([rng.randrange(2) for _ in range(n)], endian="big")
+
+    pairs = []
+
+    def add(op, arg, fn, *pa):
+        pairs.append((f"{op} {arg}", res(fn, *pa)))
+        ctx.count("transl:" + op[5:])
+
+    for _ in range(ctx.budget(150, 1500)):
+        b = rbits(rng.choice([0, 1, 2, 3, 7, 98, 144, 145, 195, 196, 197, 200]))
+        add("t.tr.b2d", sb(b), t.bits_to_dibits, b)
+        add("t.tr.b2t", sb(b), t.bits_to_tribits, b)
+        add("t.tr.dec", sb(b), t.decode, b)
+        add("t.tr.enc", sb(b), t.encode, b)
+        add("t.tr.decb", sb(b), t.decode, b, True)
+    for _ in range(ctx.budget(150, 1500)):
+        e = t.encode(rbits(144))
+        if rng.random() < 0.5:
+            k = rng.randrange(196)
+            e[k] = 1 - e[k]
+        add("t.tr.dec", sb(e), t.decode, e)
+        add("t.tr.decb", sb(e), t.decode, e, True)
+        by = bytes(rng.randrange(256) for _ in range(rng.choice([0, 1, 17, 18, 19, 30])))
+        add("t.tr.encb", by.hex() if by else "-", t.encode, by)
+    for _ in range(ctx.budget(200, 2000)):
+        n = rng.choice([0, 1, 2, 3, 48, 49, 50, 97, 98, 99, 100])
+        d = [rng.choice([3, 1, -1, -3]) if rng.random() < 0.93 else rng.choice([0, 2, -2, 5, 127, -128]) for _ in range(n)]
+        a = _array("b", d)
+        for op, fn in (("t.tr.d2b", t.dibits_to_bits), ("t.tr.deint", t.deinterleave), ("t.tr.int", t.interleave), ("t.tr.d2p", t.dibits_to_points)):
+            add(op, si(d), fn, a)
+        p = [rng.randrange(16) if rng.random() < 0.95 else rng.choice([16, 17, 255, 100]) for _ in range(n)]
+        a = _array("B", p)
+        add("t.tr.p2d", si(p), t.points_to_dibits, a)
+        add("t.tr.p2t", si(p), t.points_to_tribits, a)
+        tb = [rng.randrange(8) if rng.random() < 0.95 else rng.choice([8, 9, 63, 64, 255]) for _ in range(n)]
+        a = _array("B", tb)
+        add("t.tr.t2p", si(tb), t.tribits_to_points, a)
+        add("t.tr.t2b", si(tb), t.tribits_to_bits, a)
+    for _ in range(ctx.budget(100, 1000)):
+        tb = t.bits_to_tribits(rbits(144))
+        p = t.tribits_to_points(tb)
+        add("t.tr.p2t", si(p), t.points_to_tribits, p)
+        add("t.tr.t2b", si(tb), t.tribits_to_bits, tb)
+        q = _array("B", p)
+        q[rng.randrange(49)] = rng.randrange(16)
+        add("t.tr.p2t", si(q), t.points_to_tribits, q)
+    ctx.correspond("transl", pairs)
+
+
 def run(ctx):
     fresh_module()  # a second pass (boosted search) starts from the module state of a new process as well
     t = T()
@@ -2114,6 +2195,12 @@ def run(ctx):
         "`is` an object held before is chased with an edit.  distinct = distinct (kind, input) resp. (function, "
         "argument content); all-zero block is the only trivial case"
     )
+    ctx.trusted_base += [
+        "tools/py2lean.py + tools/py2lean_arr.py + tools/extract_transl.py (source translator: Gen/TranslTrellis.lean from inspect.getsource of the Trellis34 functions) and "
+        "lean/DmrVerif/Model/Py.lean, PyArr.lean, PyBits.lean (semantics of the Python subset); validated on every run by the differential operations t.tr.* (run_transl); "
+        "Props/C10t states what is proved about the translated definitions",
+    ]
+    run_transl(ctx)
     ctx.trusted_base += [
         "Lean 4.33 kernel",
         "tools/extract_trellis.py (reads the four tables and the two reverse dicts of Trellis34 from /repo's working tree, in dict order)",
